@@ -4,8 +4,14 @@ MC_Dialects == {"sqlite", "pg"}
 MC_Sqls == {"q1", "q2"}
 \* pool: 0 base; 1 copy of base (equal); 2 one value changed; 3 column renamed; 4 one row less; 5 rows reversed;
 \*       6 table renamed; 7 dtype int instead of float; 8 two tables, second changed
-MC_Pool == 0..8
+\*       9 two tables {e: A, d: B} inserted in that order; 10 the same map inserted as {d: B, e: A} (equal data);
+\*       11 {d: A, e: B}: the same names with the contents exchanged
+MC_Pool == 0..11
 MC_PoolQ == 0..4
-MC_Class == [m \in 0..8 |-> IF m = 1 THEN 0 ELSE m]
+MC_Pool3 == {0, 1, 2}
+MC_PoolT == {9, 10, 11}
+MC_D1 == {"sqlite"}
+MC_S1 == {"q1"}
+MC_Class == [m \in 0..11 |-> IF m = 1 THEN 0 ELSE IF m = 10 THEN 9 ELSE m]
 MC_Results == {"r1", "r2"}
 ====
